@@ -1048,3 +1048,123 @@ CONTROLS['C17'] = [
     reuse('C04', 'c04-swallow-in-object-layer', 'c17-swallow-in-tx', 'R17.4'),
     reuse('C04', 'c04-benign-rename-closure', 'c17-benign-rename', None),
 ]
+
+OAC = O + 'allocation_candidate.py'
+HAC = H + 'allocation_candidate.py'
+CONTROLS['C02'] = [
+    M('c02-sql-max-unit-strict', RCX,
+      "        inv_tbl.c.max_unit >= amount,", "        inv_tbl.c.max_unit > amount,",
+      'R2.1'),
+    M('c02-sql-drop-step', RCX,
+      "        amount % inv_tbl.c.step_size == 0,\n", "", 'R2.1'),
+    M('c02-sql-capacity-lt', RCX,
+      "        sql.func.coalesce(usage.c.used, 0) + amount <= (",
+      "        sql.func.coalesce(usage.c.used, 0) + amount < (", 'R2.1'),
+    M('c02-sql-ignores-reserved', RCX,
+      "            (inv_tbl.c.total - inv_tbl.c.reserved) *\n            inv_tbl.c.allocation_ratio),",
+      "            inv_tbl.c.total *\n            inv_tbl.c.allocation_ratio),", 'R2.1'),
+    M('c02-clause-not-applied-for-tree', RCX,
+      "        where_conds = sa.and_(\n            rpt.c.root_provider_id == tree_root_id,\n            where_conds)",
+      "        where_conds = rpt.c.root_provider_id == tree_root_id", 'R2.1'),
+    M('c02-postmerge-no-max-unit', RCX,
+      "            if arr.amount > psum_res.max_unit:", "            if arr.amount > psum_res.capacity:",
+      'R2.1'),
+    M('c02-postmerge-ge', RCX,
+      "            if psum_res.used + arr.amount > psum_res.capacity:",
+      "            if psum_res.used + arr.amount > psum_res.capacity + 1:", 'R2.1'),
+    M('c02-merge-skips-filter', OAC,
+      "            if rw_ctx.exceeds_capacity(areq):\n                continue\n", "",
+      'R2.1'),
+    M('c02-summary-capacity-no-ratio', OAC,
+      "        cap = int((usage.total - usage.reserved) * allocation_ratio)",
+      "        cap = int(usage.total - usage.reserved)", 'R2.1'),
+    M('c02-reintroduce-F1', RCX,
+      "        if arr.resource_class in self.multi_group_rcs:\n            return copy.copy(arr)\n        return arr",
+      "        if self.group_policy != 'none':\n            return arr\n"
+      "        if arr.resource_class in self.multi_group_rcs:\n            return copy.copy(arr)\n        return arr",
+      'R2.2'),
+    M('c02-never-copy', RCX,
+      "        if arr.resource_class in self.multi_group_rcs:\n            return copy.copy(arr)\n        return arr",
+      "        return arr", 'R2.2'),
+    M('c02-second-mutation-site', OAC,
+      "            areq = _consolidate_allocation_requests(areq_list, rw_ctx)\n",
+      "            areq = _consolidate_allocation_requests(areq_list, rw_ctx)\n"
+      "            for arr in areq.resource_requests:\n                arr.amount = int(arr.amount)\n",
+      'R2.2'),
+    M('c02-multi-rcs-after-merge', OAC,
+      "            # Which resource classes are requested in more than one group?\n"
+      "            for rc in rg_ctx.rcs:\n                if rc in seen_rcs:\n"
+      "                    rw_ctx.multi_group_rcs.add(rc)\n                else:\n"
+      "                    seen_rcs.add(rc)\n",
+      "            for rc in rg_ctx.rcs:\n                if rc in seen_rcs and suffix:\n"
+      "                    rw_ctx.multi_group_rcs.add(rc)\n                else:\n"
+      "                    seen_rcs.add(rc)\n", 'R2.2'),
+    M('c02-mappings-at-1.33', HAC,
+      "        if want_version.matches((1, 34)):\n            result['mappings'] = ar.mappings",
+      "        if want_version.matches((1, 33)):\n            result['mappings'] = ar.mappings",
+      'R2.3'),
+    M('c02-dict-form-at-1.11', HAC,
+      "    if want_version.matches((1, 12)):\n        a_reqs = _transform_allocation_requests_dict(",
+      "    if want_version.matches((1, 11)):\n        a_reqs = _transform_allocation_requests_dict(",
+      'R2.3'),
+    M('c02-key-renamed', HAC,
+      "        result = dict(allocations=rp_resources)", "        result = dict(allocation=rp_resources)",
+      'R2.3'),
+    B('c02-benign-window-overlap', HA,
+      "@microversion.version_handler('1.28', '1.33')", "@microversion.version_handler('1.28', '1.34')"),
+    M('c02-put-schema-window-shift', HA,
+      "@microversion.version_handler('1.34', '1.37')", "@microversion.version_handler('1.35', '1.37')",
+      'R2.3'),
+    B('c02-benign-clause-order', RCX,
+      "        inv_tbl.c.min_unit <= amount,\n        inv_tbl.c.max_unit >= amount,",
+      "        amount <= inv_tbl.c.max_unit,\n        amount >= inv_tbl.c.min_unit,"),
+    B('c02-benign-copy-first', RCX,
+      "        if arr.resource_class in self.multi_group_rcs:\n            return copy.copy(arr)\n        return arr",
+      "        if arr.resource_class not in self.multi_group_rcs:\n            return arr\n        return copy.copy(arr)"),
+]
+
+CONTROLS['C13'] = [
+    M('c13-typo-filter-key', HRP,
+      "        filters['member_of'], filters['forbidden_aggs'] = (",
+      "        filters['member_of'], filters['forbidden_agg'] = (", 'R13.1'),
+    M('c13-pair-swapped', HRP,
+      "        filters['required_traits'], filters['forbidden_traits'] = (",
+      "        filters['forbidden_traits'], filters['required_traits'] = (", 'R13.1'),
+    M('c13-param-not-read', HRP,
+      "    qpkeys = ('uuid', 'name', 'in_tree', 'resources')",
+      "    qpkeys = ('uuid', 'name', 'resources')", 'R13.1'),
+    M('c13-forbidden-traits-not-negated', RP,
+      "            query = query.where(~rp.c.id.in_(trait_rps))",
+      "            query = query.where(rp.c.id.in_(trait_rps))", 'R13.2'),
+    M('c13-name-compares-uuid', RP,
+      "        query = query.where(rp.c.name == name)", "        query = query.where(rp.c.uuid == name)",
+      'R13.2'),
+    M('c13-in-tree-uses-id', RP,
+      "        query = query.where(rp.c.root_provider_id == root_id)",
+      "        query = query.where(rp.c.id == root_id)", 'R13.2'),
+    M('c13-member-of-empty-ignored', RP,
+      "        if not rps_in_aggs:\n            return []\n        query = query.where(rp.c.id.in_(rps_in_aggs))",
+      "        if rps_in_aggs:\n            query = query.where(rp.c.id.in_(rps_in_aggs))",
+      'R13.2'),
+    M('c13-forbidden-aggs-use-member-of', RP,
+      "        rps_bad_aggs = res_ctx.provider_ids_matching_aggregates(\n            context, [forbidden_aggs])",
+      "        rps_bad_aggs = res_ctx.provider_ids_matching_aggregates(\n            context, member_of)",
+      'R13.2'),
+    M('c13-resources-first-only', RP,
+      "    for rc_name, amount in resources.items():\n        rc_id = context.rc_cache.id_from_string(rc_name)",
+      "    for rc_name, amount in list(resources.items())[:1]:\n        rc_id = context.rc_cache.id_from_string(rc_name)",
+      'R13.2'),
+    M('c13-required-traits-skip', RP,
+      "        if not rps_with_matching_traits:\n            return []\n", "", 'R13.2'),
+    M('c13-filter-resets-query', RP,
+      "        query = query.where(rp.c.uuid == uuid)",
+      "        query = sa.select(rp.c.id).where(rp.c.uuid == uuid)", 'R13.2'),
+    M('c13-trait-notfound-500', HRP,
+      "    except exception.TraitNotFound as exc:\n        raise webob.exc.HTTPBadRequest(\n"
+      "            'Invalid trait(s) in \"required\" parameter: %(error)s' %\n            {'error': exc})\n",
+      "", 'R13.4'),
+    reuse('C02', 'c02-sql-max-unit-strict', 'c13-capacity-clause', 'R13.3'),
+    B('c13-benign-order', RP,
+      "    if name:\n        query = query.where(rp.c.name == name)\n    if uuid:\n        query = query.where(rp.c.uuid == uuid)\n",
+      "    if uuid:\n        query = query.where(rp.c.uuid == uuid)\n    if name:\n        query = query.where(rp.c.name == name)\n"),
+]
